@@ -76,6 +76,7 @@ class Contract:
         self.frame_on_raise = kw.pop("frame_on_raise", False)
         self.ghost_on_yield = kw.pop("ghost_on_yield", [])
         self.writes_owner = kw.pop("writes_owner", None)  # 'GEN': every heap write must hit a GEN-owned object
+        self.merge_ifs = kw.pop("merge_ifs", False)       # if-conversion of `if c: x = CONST` (engine.merge_simple_if): opt-in, for functions with long chains of such ifs
         self.allocs_owner = kw.pop("allocs_owner", None)  # 'LOCAL': objects this function allocates itself (not its callees) belong to neither notation nor generator
         self.result_fresh = kw.pop("result_fresh", False)
         self.labels = kw.pop("labels", {})          # clause text -> short label used in obligation names
